@@ -391,6 +391,12 @@ def check_documented_defaults(f, R, rule="DEFAULT"):
     defaults = dict(zip([x.arg for x in pos][len(pos) - len(a.defaults):], a.defaults))
     defaults.update({x.arg: d for x, d in zip(a.kwonlyargs, a.kw_defaults) if d is not None})
     n = 0
+    for pname, d in defaults.items():
+        if pname.startswith("transform"):
+            isnone = isinstance(d, ast.Constant) and d.value is None
+            n += 1
+            R.check(isnone, rule, f.site, f"default of `{pname}`", f"`{pname}` of {f.name} defaults to `{ast.unparse(d)}`: without an explicit transformation the result "
+                    "must be in the atomic-orbital basis (no transformation)", where=f.where(), expected="None", found=ast.unparse(d))
     lines = doc.split("\n")
     cur = None
     for ln in lines:
@@ -415,6 +421,10 @@ def check_documented_defaults(f, R, rule="DEFAULT"):
                     stated = None
         elif re.search(r"Default is no transformation", ln):
             stated = ("lit", None)
+        elif re.search(r"Default is Physicists' notation", ln):
+            stated = ("lit", "physicist")
+        elif re.search(r"Default is Chemists' notation", ln):
+            stated = ("lit", "chemist")
         if stated is None:
             continue
         try:
@@ -428,3 +438,21 @@ def check_documented_defaults(f, R, rule="DEFAULT"):
                 f"says {actual!r}: calls that rely on the documented default compute something else", where=f.where(), expected=repr(stated[1]), found=repr(actual))
         cur = None
     return n
+
+
+
+def check_default_is(f, R, rule, param, want, why):
+    """The signature default of `param` in f is the literal `want`."""
+    a = f.node.args
+    pos = a.posonlyargs + a.args
+    defaults = dict(zip([x.arg for x in pos][len(pos) - len(a.defaults):], a.defaults))
+    defaults.update({x.arg: d for x, d in zip(a.kwonlyargs, a.kw_defaults) if d is not None})
+    if param not in [x.arg for x in pos + a.kwonlyargs]:
+        return
+    d = defaults.get(param)
+    try:
+        got = ast.literal_eval(d) if d is not None else "<required>"
+    except Exception:
+        got = ast.unparse(d)
+    R.check(d is not None and got == want and type(got) is type(want), rule, f.site, f"default of `{param}` in {f.name}",
+            f"`{param}` defaults to {got!r} in {f.name}: {why}", where=f.where(), expected=f"{param}={want!r}", found=repr(got))
